@@ -1010,6 +1010,7 @@ func (st *State) concrete(i Int) int {
 	}
 	st.pc = st.pc.push(eq)
 	st.w.concretizations++
+	st.symBranches++ // a value split decided by the solver is a branch decision of the path
 	return int(c.sval())
 }
 
